@@ -330,6 +330,21 @@ fn chunker_config_from_params<R>(
     p: dict::ChunkerParameters,
 ) -> Result<chunker::Config, ArchiveError<R>> {
     use dict::chunker_parameters::ChunkingAlgorithm;
+    // Reject parameters which would make the chunkers panic or never make progress.
+    let valid = match ChunkingAlgorithm::try_from(p.chunking_algorithm) {
+        Ok(ChunkingAlgorithm::Buzhash) | Ok(ChunkingAlgorithm::Rollsum) => {
+            (1..=30).contains(&p.chunk_filter_bits)
+                && p.rolling_hash_window_size >= 1
+                && p.max_chunk_size >= 1
+                && p.min_chunk_size <= p.max_chunk_size
+                && p.rolling_hash_window_size <= p.max_chunk_size
+        }
+        Ok(ChunkingAlgorithm::FixedSize) => p.max_chunk_size >= 1,
+        Err(_) => true,
+    };
+    if !valid {
+        return Err(ArchiveError::invalid_archive("invalid chunker parameters"));
+    }
     match ChunkingAlgorithm::try_from(p.chunking_algorithm) {
         Ok(ChunkingAlgorithm::Buzhash) => Ok(chunker::Config::BuzHash(chunker::FilterConfig {
             filter_bits: chunker::FilterBits::from_bits(p.chunk_filter_bits),
